@@ -23,13 +23,9 @@ Lemma tie_all :
   kill_prog = kill_skeleton /\ logging_prog = logging_skeleton /\ exited_prog = exited_fields.
 Proof. repeat split; reflexivity. Qed.
 
-(** ---- when does the cleanup get stuck (see the two environment facts in Model.v) *)
+(** ---- when does the cleanup get stuck (see the environment fact in Model.v) *)
 Definition stuck (w : world) : option hang_stage :=
-  if collect_logging w then
-    if log_backlog w && negb (process_died w) then Some HShutdown
-    else if died_in_log_write w then Some HListener
-    else None
-  else None.
+  if collect_logging w && died_in_log_write w then Some HListener else None.
 
 (** ---- the trace of effects is the same whatever the future answers *)
 Definition expected_trace (clog : bool) : list ev :=
@@ -38,8 +34,8 @@ Definition expected_trace (clog : bool) : list ev :=
   ++ (if clog then [VListenerSentinel; VListenerAwaited] else []).
 
 Ltac cases_w w :=
-  destruct w as [clog a bl dw]; destruct clog; destruct a as [v | e]; try destruct e;
-  destruct bl; destruct dw.
+  destruct w as [clog a dw]; destruct clog; destruct a as [v | e]; try destruct e;
+  destruct dw.
 
 Lemma run_trace_exact : forall w,
   run_trace w =
@@ -99,13 +95,14 @@ Proof. intros w H. rewrite await_exact, H. eexists. reflexivity. Qed.
 Lemma yields_without_logging : forall w, collect_logging w = false -> exists x, await_handle w = Yields x.
 Proof. intros w H. apply yields_partial. unfold stuck. rewrite H. reflexivity. Qed.
 
-Lemma yields_refuted_backlog :
-  exists w, ans w = AValue 7 /\ await_handle w = Hangs HShutdown.
-Proof. exists (mkWorld true (AValue 7) true false). split; reflexivity. Qed.
+(** a worker that ends in the normal way (the future answers with a value or the worker's
+    exception) and was not killed while logging: always yields, however much it logged *)
+Lemma yields_when_not_killed_logging : forall w, died_in_log_write w = false -> exists x, await_handle w = Yields x.
+Proof. intros w H. apply yields_partial. unfold stuck. rewrite H, andb_false_r. reflexivity. Qed.
 
 Lemma yields_refuted_killed_while_logging :
   exists w, ans w = ARaise EBrokenPool /\ await_handle w = Hangs HListener.
-Proof. exists (mkWorld true (ARaise EBrokenPool) false true). split; reflexivity. Qed.
+Proof. exists (mkWorld true (ARaise EBrokenPool) true). split; reflexivity. Qed.
 
 Lemma handle_returned : forall w, exists c, start w = SHandle c.
 Proof. intros w. rewrite start_exact. eexists. reflexivity. Qed.
@@ -160,26 +157,26 @@ Proof.
 Qed.
 
 (** safety part, unconditional: whatever happens, the effects are a prefix of the full sequence *)
+Lemma stuck_logging : forall w h, stuck w = Some h -> collect_logging w = true /\ h = HListener.
+Proof.
+  intros w h. unfold stuck. destruct (collect_logging w); destruct (died_in_log_write w); simpl;
+    intros H; inversion H; auto.
+Qed.
+
 Lemma cleanup_prefix : forall w, exists rest, expected_trace (collect_logging w) = run_trace w ++ rest.
 Proof.
-  intros w. rewrite run_trace_exact. destruct (stuck w) as [[ | ] | ] eqn:E.
-  - assert (collect_logging w = true) as ->.
-    { unfold stuck in E. destruct (collect_logging w); [reflexivity | discriminate]. }
-    eexists. simpl. reflexivity.
-  - assert (collect_logging w = true) as ->.
-    { unfold stuck in E. destruct (collect_logging w); [reflexivity | discriminate]. }
-    eexists. simpl. reflexivity.
+  intros w. rewrite run_trace_exact. destruct (stuck w) as [h | ] eqn:E.
+  - destruct (stuck_logging w h E) as [-> ->]. eexists. simpl. reflexivity.
   - exists []. rewrite app_nil_r. reflexivity.
 Qed.
 
+(** even when stuck, the worker process has been joined; only the listener task is left *)
+Lemma process_always_joined : forall w, joined (run_trace w) = true.
+Proof. intros w. cases_w w; reflexivity. Qed.
+
 Lemma cleanup_refuted :
-  (exists w, joined (run_trace w) = false /\ helpers_left (run_trace w) = 2%nat) /\
-  (exists w, joined (run_trace w) = true /\ helpers_left (run_trace w) = 1%nat).
-Proof.
-  split.
-  - exists (mkWorld true (AValue 7) true false). split; reflexivity.
-  - exists (mkWorld true (ARaise EBrokenPool) false true). split; reflexivity.
-Qed.
+  exists w, joined (run_trace w) = true /\ helpers_left (run_trace w) = 1%nat.
+Proof. exists (mkWorld true (ARaise EBrokenPool) true). split; reflexivity. Qed.
 
 Lemma times_ordered : forall w x, await_handle w = Yields x -> (created_at x < exited_at x)%nat.
 Proof.
